@@ -15,6 +15,8 @@ pub mod case;
 #[cfg(feature = "cb-std")]
 pub mod cmp_engine;
 #[cfg(feature = "cb-std")]
+pub mod copy_engine;
+#[cfg(feature = "cb-std")]
 pub mod deq;
 #[cfg(feature = "cb-std")]
 pub mod fuzz_decode;
